@@ -319,3 +319,84 @@ func astInspectCalls(file *ast.File, visit func(callee string, args []string), p
 		return true
 	})
 }
+
+// chainGuarded: the occurrence(s) of `site` reached from `top` through exactly the call chain
+// `chain` (top first) are unreachable once the edges establishing m are deleted — asked on the
+// flat (call-expanded) view of top, so the guard may sit in top or in any helper on the way.
+// When the chain cannot be followed in the flat view (a call that is not expanded), the
+// question falls back to the first call of the chain inside top, as before.
+func chainGuarded(c *Ctx, top *ssa.Function, chain []ssa.Instruction, site ssa.Instruction, m ir.Matcher, depth int) bool {
+	w := c.W
+	match := func(p ir.FPos) bool {
+		if p.In != site {
+			return false
+		}
+		var calls []ssa.Instruction
+		for x := p.Ctx; x != nil && x.Call != nil; x = x.Up {
+			calls = append([]ssa.Instruction{x.Call}, calls...)
+		}
+		if len(calls) != len(chain) {
+			return false
+		}
+		for i := range calls {
+			if calls[i] != chain[i] {
+				return false
+			}
+		}
+		return true
+	}
+	root := w.FlatRoot(top)
+	if w.FlatReaches(root, nil, nil, match) == nil {
+		first := site
+		if len(chain) > 0 {
+			first = chain[0]
+		}
+		return w.Guarded(top, first, m, depth)
+	}
+	return w.FlatReaches(w.FlatRoot(top), nil, &ir.FlatCut{Matcher: m, Depth: depth}, match) == nil
+}
+
+// chainOccurrence finds the occurrence of `site` reached from top through exactly `chain` in the flat view.
+func chainOccurrence(c *Ctx, root *ir.FCtx, chain []ssa.Instruction, site ssa.Instruction) *ir.FPos {
+	return c.W.FlatReaches(root, nil, nil, func(p ir.FPos) bool {
+		if p.In != site {
+			return false
+		}
+		n := 0
+		for x := p.Ctx; x != nil && x.Call != nil; x = x.Up {
+			n++
+		}
+		if n != len(chain) {
+			return false
+		}
+		i := len(chain) - 1
+		for x := p.Ctx; x != nil && x.Call != nil; x = x.Up {
+			if ssa.Instruction(x.Call) != chain[i] {
+				return false
+			}
+			i--
+		}
+		return true
+	})
+}
+
+// afterMust: once the occurrence of `site` (reached through `chain`) has executed, an instruction
+// accepted by req is executed before that occurrence is reached again (the next loop iteration) and
+// before top returns normally — on the flat view, so the required step and the site may live in
+// different helpers. found=false when the occurrence cannot be located in the flat view.
+func afterMust(c *Ctx, top *ssa.Function, chain []ssa.Instruction, site ssa.Instruction, req func(*ir.FCtx, ssa.Instruction) bool) (ok, found bool) {
+	w := c.W
+	root := w.FlatRoot(top)
+	pos := chainOccurrence(c, root, chain, site)
+	if pos == nil {
+		return false, false
+	}
+	success := map[ssa.Instruction]bool{}
+	for _, r := range w.SuccessReturns(top) {
+		success[r] = true
+	}
+	hit := w.FlatReaches(root, pos, &ir.FlatCut{Barrier: req}, func(p ir.FPos) bool {
+		return p.Ctx == pos.Ctx && p.In == pos.In || p.Ctx == root && success[p.In]
+	})
+	return hit == nil, true
+}
